@@ -283,8 +283,15 @@ func (MonC13) State(x *Exec) *Violation {
 	}
 	if u.HasRange || u.Kind == "collation" {
 		n := min(len(u.Bounds), 6)
-		for _, a := range u.Bounds[:n] {
-			for _, b := range u.Bounds[:n] {
+		bs := append([]int(nil), u.Bounds[:n]...)
+		// the empty key is the open end of a range: always among the bounds tried
+		for _, k := range u.Bounds[n:] {
+			if k < len(u.OrigBytes) && len(u.OrigBytes[k]) == 0 {
+				bs[len(bs)-1] = k
+			}
+		}
+		for _, a := range bs {
+			for _, b := range bs {
 				got, pan := collectSafe(x.D, Query{Kind: SeqRange, A: a, B: b})
 				x.Stats.Evaluations++
 				if v := memFault(x); v != nil {
@@ -370,8 +377,8 @@ func C13Registry(tier string) []UniverseDef {
 	}
 	und := Collators()[0]
 	csp := []CollSpec{
-		{Name: "CASEACC6", Prefix: true, Free: []string{"a", "A", "ab", "aB", "b", "abc"}, Probes: []string{"B"}, Prefixes: []string{"a", "ab"}},
-		{Name: "LONG5", Prefix: true, Free: []string{P(16) + "a", P(16) + "A", P(16) + "b", P(16) + "ab", "z"}, Probes: []string{P(16)}, Prefixes: []string{P(16), P(10)}},
+		{Name: "CASEACC6", Prefix: true, Free: []string{"a", "A", "ab", "aB", "b", "abc"}, Probes: []string{"B", ""}, Prefixes: []string{"a", "ab"}}, // "" as a bound: open-ended ranges
+		{Name: "LONG5", Prefix: true, Free: []string{P(16) + "a", P(16) + "A", P(16) + "b", P(16) + "ab", "z"}, Probes: []string{P(16), ""}, Prefixes: []string{P(16), P(10)}},
 	}
 	for _, sp := range csp {
 		for _, mode := range AllBufModes {
